@@ -390,7 +390,77 @@ func ruleArgmins(r *Run, rule string, fns []*ssa.Function) int {
 			}
 		}
 	}
+	// a listed function that has no selection loop of its own but takes the index from another listed function's
+	// argmin (kmeans calling FindNearestCentroidIndex) is covered by that function's instance
+	for _, fn := range fns {
+		if fn == nil || len(argminHeaders(fn)) > 0 {
+			continue
+		}
+		for _, g := range fns {
+			if g == nil || g == fn || len(argminHeaders(g)) == 0 {
+				continue
+			}
+			calls := callsIn(fn, func(cc *ssa.CallCommon) bool { return staticCallee(cc) == g })
+			if len(calls) > 0 {
+				n++
+				r.Ok(rule, "argmin:"+w.Name(fn)+":delegates", w.InstrPos(calls[0])+" "+w.Name(fn), "nearest selection is delegated to "+w.Name(g)+" (checked above)")
+			}
+		}
+	}
 	return n
+}
+
+// argminHeaders: the running-minimum phis (float32, initialised with +Inf at a loop header) of fn.
+func argminHeaders(fn *ssa.Function) []*ssa.Phi {
+	var out []*ssa.Phi
+	loops := loopsOf(fn)
+	for _, b := range fn.Blocks {
+		for _, in := range b.Instrs {
+			M, ok := in.(*ssa.Phi)
+			if !ok {
+				break
+			}
+			if !isFloat32(M.Type()) || M.Comment == "rangeindex" {
+				continue
+			}
+			isInf := false
+			for i, e := range M.Edges {
+				if b.Dominates(b.Preds[i]) {
+					continue
+				}
+				if call, ok := unwrapConv(e).(*ssa.Call); ok && calleeName(call.Common()) == "math.Inf" {
+					isInf = true
+				}
+			}
+			if l := innermostLoop(loops, b); isInf && l != nil && l.Header == b {
+				out = append(out, M)
+			}
+		}
+	}
+	return out
+}
+
+func unwrapConv(v ssa.Value) ssa.Value {
+	for {
+		switch x := v.(type) {
+		case *ssa.Convert:
+			v = x.X
+		case *ssa.ChangeType:
+			v = x.X
+		default:
+			return v
+		}
+	}
+}
+
+// callsArgmin: in is a static call to a comet function that contains an argmin loop.
+func callsArgmin(w *World, in ssa.Instruction) bool {
+	call, ok := in.(*ssa.Call)
+	if !ok {
+		return false
+	}
+	g := staticCallee(call.Common())
+	return g != nil && g.Pkg == w.SPkg && len(argminHeaders(g)) > 0
 }
 
 func short(s string, n int) string {
@@ -594,7 +664,11 @@ func ruleKMeansShape(r *Run, p string) {
 	allInstrs(fn, func(in ssa.Instruction) {
 		if st, ok := in.(*ssa.Store); ok {
 			if ia, ok := st.Addr.(*ssa.IndexAddr); ok && isRangeIndex(ia.Index) {
-				if _, isPhi := st.Val.(*ssa.Phi); isPhi && types.TypeString(ia.X.Type(), nil) == "[]int" {
+				_, isPhi := st.Val.(*ssa.Phi)
+				if vi, ok := st.Val.(ssa.Instruction); ok && callsArgmin(w, vi) {
+					isPhi = true // the index returned by the nearest-centroid routine
+				}
+				if isPhi && types.TypeString(ia.X.Type(), nil) == "[]int" {
 					okAssign = true
 				}
 			}
@@ -773,7 +847,7 @@ func ruleKMeansUpdate(r *Run, rule string) {
 	// the iteration loop: the outermost loop that contains a Distance.Calculate call
 	var iter *Loop
 	allInstrs(fn, func(in ssa.Instruction) {
-		if c, ok := in.(*ssa.Call); ok && c.Call.IsInvoke() && c.Call.Method.Name() == "Calculate" {
+		if c, ok := in.(*ssa.Call); ok && (c.Call.IsInvoke() && c.Call.Method.Name() == "Calculate" || callsArgmin(w, in)) {
 			for _, l := range loops {
 				if l.Blocks[in.Block()] && (iter == nil || len(l.Blocks) > len(iter.Blocks)) {
 					iter = l
